@@ -188,6 +188,15 @@ def ex_same(w, wold):
     return len(g1) == len(g0) and all(z3ify(a[1]).eq(z3ify(b[1])) for a, b in zip(g1, g0))
 
 
+def extract_mutate(model):
+    from pyvc.main import mget, mnum
+    g = lambda n: mnum(mget(model, "self." + n))
+    vals = dict(min=g("min"), max=g("max"), shrink=g("shrink_factor"), grow=g("grow_factor"), value=g("value"), draw=mnum(mget(model, "rand")))
+    if any(v is None for v in vals.values()):
+        return None
+    return vals
+
+
 def build(tier):
     P = Prop("C06")
     lib.install(P, ["torch.rand"])
@@ -204,7 +213,7 @@ def build(tier):
                    raises={"AssertionError": "self.value is None"}, raises_iff=True,
                    modifies=["self.value"],
                    ensures=[f"mutate_post(self, old(self), result, '{dt}')"],
-                   replay="c06:mutate")
+                   replay={"adapter": "c06:mutate", "extract": (lambda m, dt=dt: (lambda v: dict(v, dtype=dt) if v else None)(extract_mutate(m)))})
     for layout in LAYOUTS:
         P.specns["agent_post_" + layout.replace("-", "_")] = agent_post(layout)
         P.contract(MUT + "rl_hyperparam_mutation", variant=layout,
